@@ -217,6 +217,7 @@ func gen(seed uint64, tier string) Scenario {
 	}
 	budget := 300 * 1024
 	total := 0
+	many := core.HS(seed, "c07.many", "", 0)%10 == 0 // hash-derived so that no other choice moves
 	for f := 0; f < nf; f++ {
 		nu := 1
 		switch unitMode {
@@ -231,6 +232,9 @@ func gen(seed uint64, tier string) Scenario {
 		}
 		if nu > sp.maxUnits {
 			nu = sp.maxUnits
+		}
+		if many && sp.manyUnits > 0 && core.HS(seed, "c07.manyf", "", uint64(f))%3 != 0 {
+			nu = sp.manyUnits/2 + int(core.HS(seed, "c07.manyn", "", uint64(f))%uint64(sp.manyUnits-sp.manyUnits/2+1))
 		}
 		fr := make([]int, nu)
 		for i := range fr {
